@@ -468,6 +468,101 @@ def rule_r6(prog, res):
               Result)
 
 
+# ------------------------------------------------------------------- R7
+def rule_r7(prog, res):
+    res.rule('R7', 'enumeration literals are looked up in the declared value '
+             'list before they are resolved on the class')
+    e = prog.cls('spyne.model.enum:EnumBase')
+    vs = e.methods.get('validate_string')
+    if vs is None:
+        raise AnalysisError('EnumBase.validate_string', 'not found')
+    member = [c for c in walk_no_defs(vs.node) if isinstance(c, ast.Compare)
+              and isinstance(c.ops[0], ast.In) and unparse(
+                  c.comparators[0]).endswith('__values__')]
+    lookups = [c for c in calls_in(vs.node) if call_name(c) in (
+        'hasattr', 'getattr')]
+    ok = bool(member) and not lookups
+    res.ob('R7', vs.where, 'EnumBase.validate_string: membership %s' % (
+        [unparse(m) for m in member] or [unparse(c)[:40] for c in lookups]),
+        'ok' if ok else 'VIOLATED')
+    if not ok:
+        res.finding('R7', 'EnumBase.validate_string|membership', vs.where,
+                    'the enumeration validator does not test the literal '
+                    'against cls.__values__ (found %s): names of other class '
+                    'attributes (__values__, Attributes, customize ...) pass, '
+                    'and the XML reader then resolves them with getattr(), '
+                    'handing user code a tuple, a class or a method' % (
+                        [unparse(c)[:40] for c in lookups] or 'no test'))
+    # every getattr(cls, <request text>) in the readers is dominated by the
+    # validator (soft) or a direct membership test
+    n = 0
+    for cfq, nm in (('spyne.protocol.xml:XmlDocument', 'enum_from_element'),
+                    ('spyne.protocol._inbase:InProtocolBase',
+                     'enum_base_from_bytes')):
+        f = prog.cls(cfq).methods.get(nm)
+        if f is None:
+            continue
+        for c in calls_in(f.node):
+            if call_name(c) != 'getattr' or len(c.args) != 2:
+                continue
+            n += 1
+            g = flatten_guards(guards_at(c, stop=f.node))
+            txt = [unparse(x) for x, _ in g]
+            ok = any('__values__' in t or 'validate_string' in t
+                     for t in txt)
+            where = '%s:%d' % (f.module.relpath, c.lineno)
+            res.ob('R7', where, '%s: %s under %s' % (nm, unparse(c), txt),
+                   'ok' if ok else 'VIOLATED')
+            if not ok:
+                res.finding('R7', '%s|getattr-unguarded' % f.qualname, where,
+                            '%s resolves request text on the enum class '
+                            'without a dominating membership test' %
+                            f.qualname)
+    res.floor('R7', 'enum literal resolutions', n, 2)
+
+
+# ------------------------------------------------------------------- R8
+def rule_r8(prog, res):
+    res.rule('R8', 'nested reader calls forward the validator they were '
+             'given')
+    c = prog.cls('spyne.protocol.dictdoc.hier:HierDictDocument')
+    n = 0
+    for nm in ('_from_dict_value', '_doc_to_object'):
+        f = c.methods.get(nm)
+        if f is None or 'validator' not in f.params():
+            continue
+        for call in calls_in(f.node):
+            cn = call_name(call)
+            if cn not in ('_from_dict_value', '_doc_to_object') or not (
+                    isinstance(call.func, ast.Attribute) and
+                    dotted(call.func.value) == 'self'):
+                continue
+            n += 1
+            g = c.methods.get(cn)
+            ps = [p_ for p_ in g.params() if p_ != 'self']
+            idx = ps.index('validator') if 'validator' in ps else None
+            passed = None
+            for k in call.keywords:
+                if k.arg == 'validator':
+                    passed = k.value
+            if passed is None and idx is not None and idx < len(call.args):
+                passed = call.args[idx]
+            ok = passed is not None and unparse(passed) == 'validator'
+            where = '%s:%d' % (f.module.relpath, call.lineno)
+            res.ob('R8', where, '%s -> %s(validator=%s)' % (
+                nm, cn, unparse(passed) if passed is not None else
+                '<default None>'), 'ok' if ok else 'VIOLATED')
+            if not ok:
+                res.finding('R8', '%s|%s|validator-dropped' % (f.qualname, cn),
+                            where, '%s calls %s without forwarding its '
+                            'validator (%s): the nested value is read with '
+                            'validation off even under soft validation, so '
+                            'wrong-kind values reach user code' % (
+                                f.qualname, cn, unparse(passed)
+                                if passed is not None else 'defaults to None'))
+    res.floor('R8', 'nested reader calls', n, 4)
+
+
 def run(prog, res, tier):
     res.run_rule(rule_r1, prog, res)
     res.run_rule(rule_r2, prog, res)
@@ -475,6 +570,8 @@ def run(prog, res, tier):
     res.run_rule(rule_r4, prog, res)
     res.run_rule(rule_r5, prog, res)
     res.run_rule(rule_r6, prog, res)
+    res.run_rule(rule_r7, prog, res)
+    res.run_rule(rule_r8, prog, res)
 
 
 _X = 'spyne/protocol/xml.py'
@@ -484,6 +581,29 @@ _Y = 'spyne/protocol/yaml.py'
 _C = 'spyne/model/complex.py'
 
 MUTANTS = [
+    Mutant('enum-literal-by-hasattr', 'R7', 'fire', 'spyne/model/enum.py',
+           in_func('EnumBase.validate_string', "and value in cls.__values__",
+                   "and value is not None and hasattr(cls, value)"),
+           'membership'),
+    Mutant('enum-literal-in-tuple', 'R7', 'benign', 'spyne/model/enum.py',
+           in_func('EnumBase.validate_string', "and value in cls.__values__",
+                   "and (value in cls.__values__)"), None),
+    Mutant('file-object-unvalidated', 'R8', 'fire', _H,
+           in_func('HierDictDocument._from_dict_value',
+                   "                inst = self._parse(cls_attrs, inst)\n"
+                   "                retval = self._doc_to_object(ctx, cls, "
+                   "inst, validator)",
+                   "                inst = self._parse(cls_attrs, inst)\n"
+                   "                retval = self._doc_to_object(ctx, cls, "
+                   "inst)"), 'validator-dropped'),
+    Mutant('validator-by-keyword', 'R8', 'benign', _H,
+           in_func('HierDictDocument._from_dict_value',
+                   "                inst = self._parse(cls_attrs, inst)\n"
+                   "                retval = self._doc_to_object(ctx, cls, "
+                   "inst, validator)",
+                   "                inst = self._parse(cls_attrs, inst)\n"
+                   "                retval = self._doc_to_object(ctx, cls, "
+                   "inst, validator=validator)"), None),
     Mutant('subclass-helper-inverted', 'R5', 'fire', 'spyne/protocol/_base.py',
            in_func('ProtocolMixin.issubclass',
                    r"return issubclass\(sub if suborig is None else suborig,"
